@@ -30,8 +30,9 @@
 
   fp_type: 0 gas, 1 liquid, 2 mixed.  The `else` branches of the code for fp_type > 2 (print a
   warning, overwrite `self.fp_type = 0`; `return_all` returns the integer 0) are outside the
-  quantifier of C09 and are not modelled: here every fp_type ≥ 2 takes the mixed branch and the
-  theorems carry `fpType ≤ 2`.
+  quantifier of C09 and are NOT modelled: in this model every fp_type ≥ 2 takes the mixed branch.
+  The theorems of Props/C09 quantify over every `fpType : Nat` of the MODEL (none of them carries a
+  hypothesis `fpType ≤ 2`); for fp_type > 2 the model is simply not a transcription of the code.
   status: `clean = true` stands for status = 1, `false` for status = -1.
 -/
 import TamocV.Num
